@@ -459,7 +459,8 @@ func (o *lifeOracle) c20(e *Env, si *StepInfo) {
 			e.probe("super_node_promoted")
 		}
 		why := ""
-		if si.Kind == "tx" && n.Status&nodetypes.NODE_STATUS_SUPER_REQUIREMENT != nodetypes.NODE_STATUS_SUPER_REQUIREMENT {
+		touched := !had || pn.Status != n.Status || pn.Role != n.Role
+		if si.Kind == "tx" && touched && n.Status&nodetypes.NODE_STATUS_SUPER_REQUIREMENT != nodetypes.NODE_STATUS_SUPER_REQUIREMENT {
 			why = fmt.Sprintf("status %d lacks the full service bits", n.Status)
 		} else if pl, ok := cur.Node.Pledges[k]; !ok || pl.TotalStorage < e.W.Cfg.Node.VstorageThreshold {
 			why = fmt.Sprintf("pledged capacity %d below threshold %d", pl.TotalStorage, e.W.Cfg.Node.VstorageThreshold)
